@@ -176,3 +176,14 @@ def rand_config(rng, process=None, ptos=(0, 1, 2, 3), schemes=None, kinds=None, 
         if pto == 3:
             kinds = [k for k in kinds if k != "g1"]  # no polarised N3LO coefficient functions (C16 judges the error)
     return dict(theory=th, obs=ob, kinds=list(kinds))
+
+
+def warp_grid(xgrid):
+    """Same number of nodes, same first and last node, different interior nodes (every interior node moved 35% of the way towards
+    its upper neighbour in ln x): what a memo keyed by grid size / end points cannot tell from the original."""
+    g = np.log(np.array(xgrid, dtype=float))
+    w = g.copy()
+    w[1:-1] = g[1:-1] + 0.35 * (g[2:] - g[1:-1])
+    out = [float(v) for v in np.exp(w)]
+    out[0], out[-1] = float(xgrid[0]), float(xgrid[-1])
+    return out
